@@ -106,6 +106,11 @@ pub struct Node {
     // utilize this to simulate node being connected.
     #[cfg(test)]
     enabled_as_connected: AtomicBool,
+
+    // Verification hook: liveness/enabled override and sharder override for
+    // nodes built in memory (without connection pools).
+    #[cfg(scylla_verif)]
+    pub(crate) verif: crate::verif::NodeOverride,
 }
 
 /// A way that Nodes are often passed and accessed in the driver's code.
@@ -144,6 +149,8 @@ impl Node {
             pool: Some(pool),
             #[cfg(test)]
             enabled_as_connected: AtomicBool::new(false),
+            #[cfg(scylla_verif)]
+            verif: Default::default(),
         }
     }
 
@@ -161,6 +168,8 @@ impl Node {
             pool: None,
             #[cfg(test)]
             enabled_as_connected: AtomicBool::new(false),
+            #[cfg(scylla_verif)]
+            verif: Default::default(),
         }
     }
 
@@ -185,6 +194,8 @@ impl Node {
             pool: node.pool.clone(),
             #[cfg(test)]
             enabled_as_connected: AtomicBool::new(node.enabled_as_connected.load(Ordering::SeqCst)),
+            #[cfg(scylla_verif)]
+            verif: Default::default(),
         }
     }
 
@@ -196,6 +207,10 @@ impl Node {
     /// If the node [is enabled](Self::is_enabled) and does not have a sharder,
     /// this means it's not a ScyllaDB node.
     pub fn sharder(&self) -> Option<Sharder> {
+        #[cfg(scylla_verif)]
+        if let Some(sharder) = self.verif.sharder() {
+            return sharder;
+        }
         self.pool.as_ref()?.sharder()
     }
 
@@ -215,6 +230,10 @@ impl Node {
         if self.enabled_as_connected.load(Ordering::SeqCst) {
             return self.is_enabled();
         }
+        #[cfg(scylla_verif)]
+        if let Some(connected) = self.verif.connected() {
+            return connected;
+        }
         let Ok(pool) = self.get_pool() else {
             return false;
         };
@@ -225,6 +244,10 @@ impl Node {
     /// Only enabled nodes will have connections open. For disabled nodes,
     /// no connections will be opened.
     pub fn is_enabled(&self) -> bool {
+        #[cfg(scylla_verif)]
+        if let Some(enabled) = self.verif.enabled() {
+            return enabled;
+        }
         self.pool.is_some()
     }
 
@@ -292,6 +315,29 @@ impl Eq for Node {}
 impl Hash for Node {
     fn hash<H: Hasher>(&self, state: &mut H) {
         self.host_id.hash(state);
+    }
+}
+
+#[cfg(scylla_verif)]
+impl Node {
+    /// Verification hook: builds a pool-less node whose enabled/connected
+    /// state and sharder are dictated by its `NodeOverride`.
+    pub(crate) fn verif_new(
+        host_id: Uuid,
+        address: SocketAddr,
+        datacenter: Option<String>,
+        rack: Option<String>,
+    ) -> Self {
+        Self {
+            host_id,
+            address: NodeAddr::Translatable(address),
+            datacenter,
+            rack,
+            pool: None,
+            #[cfg(test)]
+            enabled_as_connected: AtomicBool::new(false),
+            verif: Default::default(),
+        }
     }
 }
 
@@ -467,6 +513,8 @@ mod tests {
                 rack,
                 pool: None,
                 enabled_as_connected: AtomicBool::new(false),
+                #[cfg(scylla_verif)]
+                verif: Default::default(),
             }
         }
 
